@@ -1248,13 +1248,59 @@ fn parse_case(c: &Value) -> Case {
     Case { cfg: c["cfg"].as_u64().unwrap_or(0), big, ops, ops_json: Some(arr) }
 }
 
-fn run_case(cx: &mut Ctx, c: &Value, force: bool) {
+fn run_case(cx: &mut Ctx, c: &Value, force: bool, out: &str) {
     let name = c["cell"].as_str().unwrap_or("");
     let case = parse_case(c);
     if name == "*" {
-        for cell in CELLS { history(cx, cell, &case, force, true); }
+        for cell in CELLS { if case.big.is_some() { isolated(cx, cell, &case, out); } else { history(cx, cell, &case, force, true); } }
     } else if let Some(cell) = CELLS.iter().find(|d| d.name == name) {
-        history(cx, cell, &case, force, true);
+        if case.big.is_some() { isolated(cx, cell, &case, out); } else { history(cx, cell, &case, force, true); }
+    }
+}
+
+/// A case with a big key set runs in a child process (this binary, `--replay` of the case, ZV_C05_CHILD set): a structure that
+/// has become cyclic or has lost its bounds overflows the stack or aborts in the recursive enumeration, and a dead harness has no
+/// failing input to show.  The child's summary is merged; a child that dies or hangs is a failure of the case.
+fn isolated(cx: &mut Ctx, cell: &CellDef, case: &Case, out: &str) {
+    if std::env::var("ZV_C05_CHILD").is_ok() { history(cx, cell, case, false, false); return; }
+    let name = cell.name;
+    let cj = case.json(name);
+    let dir = format!("{}/big_child", out);
+    let _ = std::fs::remove_dir_all(&dir);
+    let _ = std::fs::create_dir_all(&dir);
+    let file = format!("{}/case.json", dir);
+    let _ = std::fs::write(&file, serde_json::to_string(&json!({"case": cj})).unwrap_or_default());
+    let exe = match std::env::current_exe() { Ok(e) => e, Err(_) => { history(cx, cell, case, false, false); return; } };
+    let child = std::process::Command::new(exe).args(["C05", "--seed", "0", "--tier", "quick", "--out", &dir, "--replay", &file])
+        .env("ZV_C05_CHILD", "1").stdin(std::process::Stdio::null()).stdout(std::process::Stdio::null()).stderr(std::process::Stdio::null()).spawn();
+    let mut child = match child { Ok(c) => c, Err(_) => { history(cx, cell, case, false, false); return; } };
+    let t0 = std::time::Instant::now();
+    let status = loop {
+        match child.try_wait() {
+            Ok(Some(st)) => break Some(st),
+            Ok(None) => { if t0.elapsed().as_secs() > 600 { let _ = child.kill(); let _ = child.wait(); break None; } std::thread::sleep(std::time::Duration::from_millis(5)); }
+            Err(_) => break None,
+        }
+    };
+    let summary: Option<Value> = std::fs::read_to_string(format!("{}/summary.json", dir)).ok().and_then(|s| serde_json::from_str(&s).ok());
+    match (status.map(|s| s.success()), summary) {
+        (Some(true), Some(v)) => {
+            cx.sum.eval(name, &format!("{} {} {:?} {:?}", name, case.cfg, case.big, case.ops), true);
+            cx.sum.cell_status(name, cell.status);
+            if let Some(d) = v["distribution"].as_object() { for (k, n) in d { if k != "coq_cases" { *cx.sum.distribution.entry(k.clone()).or_insert(0) += n.as_u64().unwrap_or(0); } } }
+            if let Some(d) = v["known_hits"].as_object() { for (k, n) in d { *cx.sum.known_hits.entry(k.clone()).or_insert(0) += n.as_u64().unwrap_or(0); } }
+            for f in v["failures"].as_array().cloned().unwrap_or_default() {
+                if f["class"].is_null() { report(&mut cx.sum, name, None, f["case"].clone(), f["detail"].as_str().unwrap_or("")); }
+                else if cx.sum.failures.len() < cx.sum.max_failures && cx.sum.failures.iter().filter(|g| g["class"] == f["class"] && g["cell"] == f["cell"]).count() < 3 { cx.sum.failures.push(f); }
+            }
+        }
+        (st, _) => {
+            cx.sum.eval(name, &format!("{} {} {:?} {:?}", name, case.cfg, case.big, case.ops), true);
+            cx.sum.cell_status(name, cell.status);
+            let how = match (st, status) { (None, _) => "did not finish within 600 s and was killed".to_string(), (_, Some(s)) => format!("died ({})", s), _ => "died".to_string() };
+            report(&mut cx.sum, name, None, cj, &format!("the process that ran this case {} (stack overflow / abort / endless loop inside the trie code)", how));
+            cx.sum.dist(&format!("unlisted_failures/{}", name));
+        }
     }
 }
 
@@ -1294,7 +1340,7 @@ pub fn run(args: &Args) {
     if let Some(f) = &args.replay {
         let v: Value = serde_json::from_str(&std::fs::read_to_string(f).expect("replay file")).expect("json");
         let c = if v.get("case").is_some() { v["case"].clone() } else { v };
-        run_case(&mut cx, &c, true);
+        run_case(&mut cx, &c, true, &args.out);
         let sh = cx.shards.write(&args.out);
         cx.sum.write(&args.out, sh);
         return;
@@ -1305,7 +1351,7 @@ pub fn run(args: &Args) {
         for p in files {
             if let Ok(v) = serde_json::from_str::<Value>(&std::fs::read_to_string(&p).unwrap_or_default()) {
                 let c = if v.get("case").is_some() { v["case"].clone() } else { v };
-                run_case(&mut cx, &c, true);
+                run_case(&mut cx, &c, true, &args.out);
                 cx.sum.dist("corpus_cases");
             }
         }
@@ -1357,7 +1403,7 @@ pub fn run(args: &Args) {
                     case.ops = keep.iter().map(|&i| case.ops[i].clone()).collect();
                     case.ops_json = Some(keep.iter().map(|&i| js[i].clone()).collect());
                 }
-                history(&mut cx, cell, &case, false, false);
+                isolated(&mut cx, cell, &case, &args.out);
                 tr(&format!("big {} {} on {}", kind, n, name));
             }
         }
